@@ -432,9 +432,10 @@ func notThere(err error) bool {
 
 // containsSpokfile reports whether removing path would remove the spokfile, that is whether
 // path is the spokfile itself, the directory it sits in or any directory above that.
+// The two are compared by where they really are, the way to either may lead through symbolic links.
 func containsSpokfile(path string, spokfile *file.SpokFile) bool {
-	path = filepath.Clean(path)
-	target := filepath.Clean(spokfile.Path)
+	path = physical(path)
+	target := physical(spokfile.Path)
 	if path == target {
 		return true
 	}
@@ -443,6 +444,18 @@ func containsSpokfile(path string, spokfile *file.SpokFile) bool {
 		return false
 	}
 	return rel != ".." && !strings.HasPrefix(rel, ".."+string(filepath.Separator))
+}
+
+// physical returns path with the symbolic links in its directory part resolved. The last element
+// is kept as it is: removing a symbolic link removes the link and not what it points to.
+// If the directory cannot be resolved (it does not exist) the cleaned path is returned.
+func physical(path string) string {
+	path = filepath.Clean(path)
+	dir, err := filepath.EvalSymlinks(filepath.Dir(path))
+	if err != nil {
+		return path
+	}
+	return filepath.Join(dir, filepath.Base(path))
 }
 
 // setStream reassigns all the app's IO streams to match the one passed in.
